@@ -80,6 +80,8 @@ fn voting_thread(
                 tracks,
                 monitor,
             } => {
+                #[cfg(similari_verif)]
+                crate::verif_hook::at("v.job.start", &[scene_id]);
                 let candidates_num = tracks.len();
                 let tracks_num = {
                     let store = store.read().expect("Access to store must always succeed");
@@ -104,10 +106,14 @@ fn voting_thread(
                         *track_id += 1;
                         *track_id
                     };
+                    #[cfg(similari_verif)]
+                    crate::verif_hook::at("v.tid", &[scene_id, tid]);
                     let track_id: u64 = if let Some(dest) = winners.get(&source) {
                         let dest = dest[0];
                         if dest == source {
                             t.set_track_id(tid);
+                            #[cfg(similari_verif)]
+                            crate::verif_hook::at("v.write.add", &[scene_id, tid]);
                             store
                                 .write()
                                 .expect("Access to store must always succeed")
@@ -115,15 +121,21 @@ fn voting_thread(
                                 .unwrap();
                             tid
                         } else {
+                            #[cfg(similari_verif)]
+                            crate::verif_hook::at("v.write.merge", &[scene_id, dest]);
                             store
                                 .write()
                                 .expect("Access to store must always succeed")
                                 .merge_external(dest, &t, Some(&[0]), false)
                                 .unwrap();
+                            #[cfg(similari_verif)]
+                            crate::verif_hook::at("v.merge.done", &[scene_id, dest]);
                             dest
                         }
                     } else {
                         t.set_track_id(tid);
+                        #[cfg(similari_verif)]
+                        crate::verif_hook::at("v.write.add", &[scene_id, tid]);
                         store
                             .write()
                             .expect("Access to store must always succeed")
@@ -138,13 +150,19 @@ fn voting_thread(
 
                     res.push(SortTrack::from(track))
                 }
+                #[cfg(similari_verif)]
+                crate::verif_hook::at("v.send.before", &[scene_id]);
                 let res = channel.send((scene_id, res));
+                #[cfg(similari_verif)]
+                crate::verif_hook::at("v.send.after", &[scene_id]);
                 if let Err(e) = res {
                     warn!("Unable to send results to a caller, likely the caller already closed the channel. Error is: {:?}", e);
                 }
                 let (lock, cvar) = &*monitor;
                 let mut lock = lock.lock().unwrap();
                 *lock -= 1;
+                #[cfg(similari_verif)]
+                crate::verif_hook::at("v.mon.dec", &[scene_id, *lock as u64]);
                 cvar.notify_one();
             }
             VotingCommands::Exit => break,
@@ -234,15 +252,21 @@ impl BatchSort {
             let (lock, cvar) = &**m;
             let _guard = cvar.wait_while(lock.lock().unwrap(), |v| *v > 0).unwrap();
         }
+        #[cfg(similari_verif)]
+        crate::verif_hook::at("p.wait.done", &[]);
 
         self.monitor = Some(Arc::new((
             Mutex::new(batch_request.batch_size()),
             Condvar::new(),
         )));
+        #[cfg(similari_verif)]
+        crate::verif_hook::at("p.monitor.set", &[batch_request.batch_size() as u64]);
 
         for (i, (scene_id, bboxes)) in batch_request.get_batch().iter().enumerate() {
             let mut rng = rand::thread_rng();
             let epoch = self.opts.next_epoch(*scene_id).unwrap();
+            #[cfg(similari_verif)]
+            crate::verif_hook::at("p.epoch", &[*scene_id, epoch as u64]);
 
             let tracks = bboxes
                 .iter()
@@ -266,6 +290,8 @@ impl BatchSort {
                 })
                 .collect::<Vec<_>>();
 
+            #[cfg(similari_verif)]
+            crate::verif_hook::at("p.enq", &[*scene_id]);
             let (dists, errs) = {
                 let mut store = self
                     .store
@@ -275,7 +301,11 @@ impl BatchSort {
             };
 
             assert!(errs.all().is_empty());
+            #[cfg(similari_verif)]
+            crate::verif_hook::at("p.drained", &[*scene_id]);
             let thread_id = i % self.voting_threads.len();
+            #[cfg(similari_verif)]
+            crate::verif_hook::at("p.dispatch", &[*scene_id, thread_id as u64]);
             self.voting_threads[thread_id]
                 .0
                 .send(VotingCommands::Distances {
